@@ -287,11 +287,8 @@ pub fn replay(r: &Value) -> bool {
                     }
                 };
                 verify_one::<V>("replay", &unhex(r["msg"].as_str().unwrap()), &unhex(r["sig"].as_str().unwrap()), &pk, &pkb, &mut rep);
-                for v in &rep.violations {
-                    println!("{}: {}", v.signature, v.detail);
-                }
                 println!("counters: {:?}", rep.counters);
-                rep.violations.is_empty()
+                crate::util::print_replay(&rep)
             }
             _ => false,
         }
